@@ -242,6 +242,10 @@ func (m *indexLikeMatcher) Match(val client.NormalValue) (bool, error) {
 	strVal, ok := val.String()
 	if !ok {
 		if strOptVal, ok := val.NillableString(); ok {
+			if !strOptVal.HasValue() {
+				// null is like no pattern, as in the filter evaluation without an index
+				return !m.isLike, nil
+			}
 			strVal = strOptVal.Value()
 		} else if jsonVal, ok := val.JSON(); ok {
 			strVal, ok = jsonVal.String()
